@@ -147,7 +147,7 @@ func applyProfile(t *Tape, property string, sc *Scenario, cfg *Config) {
 		}
 	case "C11":
 		if t.Next(2) == 1 {
-			sc.Events = append([]UserEvent{{Kind: "edit-plan-current", AtStep: 1 + t.Next(len(sc.Steps)), AtState: stepStates[2+t.Next(4)], Arg: t.Next(1000)}}, sc.Events...)
+			sc.Events = append([]UserEvent{{Kind: "edit-plan-current", AtStep: 1 + t.Next(len(sc.Steps)), AtState: stepStates[1+t.Next(5)], Arg: t.Next(1000)}}, sc.Events...)
 		}
 	case "C10", "C04":
 		if sc.Traffic == "" {
